@@ -44,7 +44,14 @@ class C05(MergeFamProp):
 
     def gen_cases(self, rng, n, tier):
         out = []
-        for c in super().gen_cases(rng, n, tier):
+        gen = list(super().gen_cases(rng, n, tier))
+        # targeted family: operators addressing a key at depth 1 whose name is not a plain identifier / looks like a path
+        for i in range(max(3, n // 12)):
+            k = rng.choice(['x.y', 'my-key', 'a[0]', 'k 1', 'x.y'])
+            base = M([('x', M([('y', Q([S(1), S(2)])), ('z', S(3))])), (k, rng.choice([Q([S(4), S(5)]), M([('p', S(6))])])), ('a', Q([S(7)]))])
+            op = rng.choice([Sempty('clear'), Sempty('clear'), M([('q', S(8))], kw={'del': True}), Q([S(9)], kw={'del': False})])
+            gen[i % len(gen)] = {'docs': [{'raw': base}, {'raw': M([(k, op)])}], 'style': ['flow', 0, 0]}
+        for c in gen:
             ks = keys_inside(c['docs'])
             c['wrap'] = [rng.choice(ks) for _ in range(rng.choice([1, 1, 2, 3]))]
             c['sib'] = [rng.choice(['zz', 'sib']), rng.choice([0, 'v', None])]
